@@ -30,6 +30,7 @@ type monoWin interface {
 
 func monoCases(o *Out, rng *RNG, n int) error {
 	idle := int64(time.Hour)
+	future := 0
 	for i := 0; i < n; i++ {
 		// windows of seconds at a present-day epoch: the fire loop of the real window walks every window between the
 		// current slot and an idle-advanced watermark, so events stamped in 1970 would keep it busy for hours
@@ -75,6 +76,18 @@ func monoCases(o *Out, rng *RNG, n int) error {
 				ops = append(ops, wop{kind: 'I', ts: 2 * idle}, wop{kind: 'K'})
 			}
 			deliver(1 + rng.Intn(3))
+		}
+		if rng.Intn(2) == 0 {
+			// an event ahead of the wall clock by a legal amount (20 h), then one beyond the 24 h guard (40 h): the
+			// guard is measured against the wall clock, not against the largest timestamp accepted so far
+			f := harnessBase + int64(20*time.Hour) + int64(rng.Intn(1000))*int64(time.Millisecond)
+			add(f)
+			deliver(1 + rng.Intn(2))
+			add(harnessBase + int64(40*time.Hour) + int64(rng.Intn(1000))*int64(time.Millisecond))
+			deliver(1)
+			add(f + 1 + int64(rng.Intn(int(size))))
+			add(f - c.ooo - 1 - int64(rng.Intn(int(size))))
+			future++
 		}
 		deliver(3)
 		cfg := types.WindowConfig{
@@ -142,5 +155,6 @@ func monoCases(o *Out, rng *RNG, n int) error {
 		o.Line("C02 M %d %d %d %d %d # %s # %s # W %s", c.size, c.ooo, c.late, idle, harnessBase, strings.Join(optoks, " "), strings.Join(trace, " "), strings.Join(curs, " "))
 		o.Count(fmt.Sprintf("watermark writers: idle advance then resumed events, late=%d", c.late/size))
 	}
+	o.Count(fmt.Sprintf("watermark writers: histories with an event 20 h ahead of the clock, then one 40 h ahead: %d", future))
 	return nil
 }
